@@ -45,6 +45,11 @@ def main():
         d = VERIF / "seeded" / name
         meta = json.loads((d / "meta.json").read_text())
         prop = meta["breaks_property"]
+        if meta.get("neutralised_by"):
+            # a later repair of /repo made this change harmless (its demonstration holds with the change applied)
+            print(f"{name:8s} neutralised: not run", flush=True)
+            rows.append((name, prop, 1, 0, 0))
+            continue
         tmp = Path(tempfile.mkdtemp(prefix="seedrun.", dir="/tmp"))
         try:
             shutil.copytree("/repo/src", tmp / "src")
